@@ -65,7 +65,7 @@ subn_fix_func = Unit(
 def slice_string_lines(fn):
     """the innermost `for lineno in range(...): indents[lineno] = 0` loop of the node-splice path"""
     for n in ast.walk(fn):
-        if isinstance(n, ast.For) and isinstance(n.target, ast.Name) and len(n.body) == 1 and isinstance(n.body[0], ast.Assign) \
+        if isinstance(n, ast.For) and isinstance(n.target, ast.Name) and n.body and isinstance(n.body[0], ast.Assign) \
                 and ast.unparse(n.body[0].targets[0]).startswith("indents[") and ast.unparse(n.body[0].value) == "0":
             return [n], "string-continuation-lines"
     raise NotGenerated("_do_rewrite: loop exempting string continuation lines from re-indentation not found")
@@ -73,16 +73,21 @@ def slice_string_lines(fn):
 
 string_lines = Unit(
     "processing", "_do_rewrite", slice=slice_string_lines,
-    params={"node": "obj", "indents": ("dict", "int", "int")},
+    params={"node": "obj", "indents": ("dict", "int", "int"), "lines_ending_in_string": ("set", "int")},
     requires=[("literal-spans-lines", "1 <= node.lineno and node.lineno <= node.end_lineno")],
     ensures=[
         # lines are indexed from 0 in `indents`, node.lineno counts from 1: the literal starts on index lineno-1, and the lines that
         # consist of string CONTENT (must not be re-indented) are the indices lineno .. end_lineno-1
         ("content-lines-not-reindented", "forall(lambda i: implies(node.lineno <= i and i < node.end_lineno, i in indents and indents[i] == 0))"),
+        # the lines whose END lies inside the literal (indices lineno-1 .. end_lineno-2) keep their trailing whitespace
+        ("lines-ending-inside-the-literal-keep-trailing-whitespace", "forall(lambda i: implies(node.lineno - 1 <= i and i < node.end_lineno - 1, i in lines_ending_in_string))"),
+        ("no-other-line-is-exempted-from-trailing-whitespace-removal", "forall(lambda i: implies(i < node.lineno - 1 or i >= node.end_lineno - 1, (i in lines_ending_in_string) == (i in old(lines_ending_in_string))))"),
         ("first-line-and-other-lines-keep-their-indent",
          "forall(lambda i: implies(i < node.lineno or i >= node.end_lineno, (i in indents) == (i in old(indents)) and implies(i in old(indents), indents[i] == old(indents)[i])))"),
     ],
-    loops={0: {"inv": ["forall(lambda i: implies(node.lineno <= i and i < node.lineno + _i, i in indents and indents[i] == 0))",
+    loops={0: {"inv": ["forall(lambda i: implies(node.lineno - 1 <= i and i < node.lineno - 1 + _i, i in lines_ending_in_string))",
+                       "forall(lambda i: implies(i < node.lineno - 1 or i >= node.lineno - 1 + _i, (i in lines_ending_in_string) == (i in old(lines_ending_in_string))))",
+                       "forall(lambda i: implies(node.lineno <= i and i < node.lineno + _i, i in indents and indents[i] == 0))",
                        "forall(lambda i: implies(i < node.lineno or i >= node.lineno + _i, (i in indents) == (i in old(indents)) and implies(i in old(indents), indents[i] == old(indents)[i])))"]}},
     attrs={"lineno": "int", "end_lineno": "int"}, props=("C14",),
 )
